@@ -48,6 +48,8 @@ def instances(tier):
         out.append({"phase": "backoff", "gen": g})
         out.append({"phase": "initialised", "gen": g, "close_latency": 0.05})      # closing the transport takes 50 ms
         out.append({"phase": "connecting", "gen": g, "quick_reinit": True})        # init() again while the old connect is still in flight
+        out.append({"phase": "connecting", "gen": g, "quick_reinit": True, "close_latency": 0.05})
+        out.append({"phase": "initialised", "gen": g, "quick_reinit": True, "close_latency": 0.05})   # init() again while shutdown() is still closing
         for sc in ("down_queue", "connecting", "write_suspended", "write_suspended_lost", "backoff"):
             out.append({"phase": "sock_close", "gen": g, "scenario": sc})
         for st in range(6):
@@ -81,11 +83,16 @@ def _quick_reinit(ctx, p):
     the old attempt has resolved: the new session initialises, one connection is in use, every other one was closed."""
     g = Gen(p["gen"])
     inst = Installation.simple(g.n, n_acs=2, zones_per_ac=2)
-    ts = ctx.real("ts", 0, 2.5)
-    r = ctx.real("r", 0, 4, lo_strict=True)
+    initialised = p["phase"] == "initialised"
+    ts = ctx.real("ts", 0, 2.5) if not initialised else 1.0
+    r = ctx.real("r", 0, 4, lo_strict=True) if not initialised else ctx.real("r", 0, 0.25, lo_strict=True)
     with ApiRig(ctx, g, inst) as rig:
         con = rig.console
-        rig.net.on_connect = lambda net, n: ("accept", 3.0 if n == 0 else 0.25)
+        rig.net.on_connect = lambda net, n: ("accept", (3.0 if not initialised else 0) if n == 0 else 0.25)
+        if p.get("close_latency"):
+            rig.net.close_latency = p["close_latency"]
+            ctx.assume(ts + r != 3.0 + p["close_latency"])
+            ctx.assume(r != p["close_latency"])
         rig.start()
         done = {}
 
@@ -102,6 +109,21 @@ def _quick_reinit(ctx, p):
         detail = {"phase": "quick_reinit", "result": rig.init_result, "model": got, "conns": len(rig.net.conns)}
         ctx.observe("result", rig.init_result)
         ctx.check("at" in done, "nothing_after_shutdown", detail=dict(detail, why="shutdown() did not return"))
+        if initialised and _b(r < (p.get("close_latency") or 0)):
+            # init() was called while shutdown() was still closing the connection: the property speaks of a *later* init();
+            # whatever this one returns, the client must not be left open without ever connecting
+            again = {}
+
+            async def later():
+                again["r"] = await rig.at.init()
+
+            if rig.init_result is not True:
+                rig.spawn(later())
+                rig.run(ts + r + 40.0)
+                ctx.check(again.get("r") is True, "reinit_works", detail=dict(detail, why="a later init() does not work either", second=again.get("r")))
+            for lab in expect_labels("quick"):
+                ctx.reach(lab)
+            return
         ctx.check(rig.init_result is True and rig.at.initialised and got == {0: [0, 1], 1: [2, 3]}, "reinit_works", detail=detail)
         still_open = [c.index for c in rig.net.conns if not c.client_closed]
         ctx.check(rig.net.max_open <= 1 and len(still_open) == 1, "all_transports_closed", detail=dict(detail, still_open=still_open, max_open=rig.net.max_open))
